@@ -116,6 +116,11 @@ def run_meta(ctx, variants_fn, n_valid, n_mut, what, rule, trusted, k=4):
         only = tuple(m for m in (only or ()) if m in M.MUTATORS) or None
         s, name, owner, desc = M.mutate(rng, only=only, threads=(i % 2 == 1))
         add(s, "mutant", name, owner, desc)
+    if variants_fn is variants_c14:
+        # the settable family of C07 (which action shape makes which attribute settable; several actions on one object)
+        import checks.c07 as _c07
+        for it in _c07.settable_family(ctx, rng):
+            add(it.scenario, "settable", it.mutator, "C07", it.desc)
     evaluated = engine.run_items(ctx, items)
     if variants_fn is variants_c14:
         # the other order-free arrays of the statement: pipelines, variable declarations, filter clauses, outputs
